@@ -3,29 +3,44 @@
   function on the L1 model, and the lift of one-step preservation to every reachable state.
 -/
 import BroodModel.Lemmas.Insert
+import BroodModel.Lemmas.Extend
 import BroodModel.Lemmas.Remove
+import BroodModel.Lemmas.Clear
+import BroodModel.Lemmas.Shrink
+import BroodModel.Lemmas.Write
+import BroodModel.Lemmas.Move
 
 namespace Brood
 
-/-- Public operations of a world (the ones whose preservation of `Inv` is proved so far; the
-property files say which operations are still covered by the correspondence check only). -/
+/-- Public single-world operations. (`clone`, `clone_from` and deserialization involve a second
+world and are treated separately.) -/
 inductive Op
   | insert (shape : List Nat) (vals : List Val)
+  | extend (shape : List Nat) (rows : List (List Val))
   | remove (id : Ident)
+  | clear (order : List Mask)               -- `order`: the table iterator's order, any list
+  | add (id : Ident) (c : Nat) (v : Val)    -- Entry::add
+  | del (id : Ident) (c : Nat)              -- Entry::remove
+  | write (id : Ident) (c : Nat) (v : Val)  -- mutation through a `&mut` entry view
   | reserve (shape : List Nat)
+  | shrink
 deriving Repr
+
+def fstOut {α β} : Out (α × β) → Out α
+  | .ok (a, _) => .ok a
+  | .ub e => .ub e
 
 /-- One step. Results (identifiers, dropped values) are not needed for the invariant. -/
 def step (w : World) : Op → Out World
-  | .insert shape vals =>
-    match w.insert shape vals with
-    | .ok (w', _) => .ok w'
-    | .ub e => .ub e
-  | .remove id =>
-    match w.remove id with
-    | .ok (w', _) => .ok w'
-    | .ub e => .ub e
+  | .insert shape vals => fstOut (w.insert shape vals)
+  | .extend shape rows => fstOut (w.extend shape rows)
+  | .remove id => fstOut (w.remove id)
+  | .clear order => fstOut (w.clear order)
+  | .add id c v => fstOut (w.entryAdd id c v)
+  | .del id c => fstOut (w.entryRemove id c)
+  | .write id c v => fstOut (w.write id c v)
   | .reserve shape => w.reserve shape
+  | .shrink => .ok w.shrinkToFit
 
 def run (w : World) : List Op → Out World
   | [] => .ok w
@@ -34,19 +49,25 @@ def run (w : World) : List Op → Out World
     | .ok w' => run w' ops
     | .ub e => .ub e
 
+theorem fstOut_ok {α β} {x : Out (α × β)} {a : α} (h : fstOut x = .ok a) : ∃ b, x = .ok (a, b) := by
+  cases x with
+  | ub e => simp [fstOut] at h
+  | ok p => obtain ⟨a', b⟩ := p; simp [fstOut] at h; subst h; exact ⟨b, rfl⟩
+
 theorem step_inv {w w' : World} (hi : Inv w) {op : Op} (e : step w op = .ok w') : Inv w' := by
   cases op with
-  | insert shape vals =>
-    simp only [step] at e
-    cases h : w.insert shape vals with
-    | ub x => simp [h] at e
-    | ok p => obtain ⟨w1, id⟩ := p; simp [h] at e; subst e; exact insert_inv hi h
-  | remove id =>
-    simp only [step] at e
-    cases h : w.remove id with
-    | ub x => simp [h] at e
-    | ok p => obtain ⟨w1, d⟩ := p; simp [h] at e; subst e; exact remove_inv hi h
+  | insert shape vals => obtain ⟨_, h⟩ := fstOut_ok e; exact insert_inv hi h
+  | extend shape rows => obtain ⟨_, h⟩ := fstOut_ok e; exact extend_inv hi h
+  | remove id => obtain ⟨_, h⟩ := fstOut_ok e; exact remove_inv hi h
+  | clear order =>
+    obtain ⟨d, h⟩ := fstOut_ok e
+    obtain ⟨w1, d1, h1, hi1⟩ := clear_inv hi order
+    rw [h1] at h; cases h; exact hi1
+  | add id c v => obtain ⟨_, h⟩ := fstOut_ok e; exact entryAdd_inv hi h
+  | del id c => obtain ⟨_, h⟩ := fstOut_ok e; exact entryRemove_inv hi h
+  | write id c v => obtain ⟨_, h⟩ := fstOut_ok e; exact write_inv hi h
   | reserve shape => exact reserve_inv hi e
+  | shrink => simp [step] at e; subst e; exact shrink_inv hi
 
 theorem run_inv {w w' : World} (hi : Inv w) (ops : List Op) (e : run w ops = .ok w') : Inv w' := by
   induction ops generalizing w with
